@@ -81,6 +81,13 @@ def what_changed(before, after):
 def cause_of(op, exc):
     msg = str(exc)
     c = type(exc).__name__
+    tb = exc.__traceback__
+    while tb is not None:
+        if tb.tb_frame.f_code.co_name == "_modulate_slm_mask_dmm":
+            # the detuning pulse that implements the SLM mask was refused (too short, too
+            # long, beyond the device's duration ...) after the state was already changed
+            return c + ":masking-pulse-refused"
+        tb = tb.tb_next
     if "duration has to be at least" in msg:
         return c + ":below-min-duration"
     if "duration can be at most" in msg:
@@ -93,6 +100,12 @@ def cause_of(op, exc):
         return c + ":invalid-initial-target"
     if "has no target" in msg:
         return c + ":channel-without-target"
+    if "prior to modulating the DMM" in msg:
+        return c + ":slm-dmm-waiting"
+    if "total bottom detuning" in msg:
+        return c + ":dmm-total-bottom-detuning"
+    if "bottom detuning" in msg:
+        return c + ":dmm-bottom-detuning"
     if "castable to an int" in msg:
         return c + ":duration-type"
     return c + ":other"
@@ -113,7 +126,7 @@ def classify(op, exc, ks, detail, seq):
             kept.add("target-slot")
         if "'pulse'" in d:
             kept.add("pulse")
-    if k == "declare":
+    if k == "declare" or (k in ("config_slm", "config_detuning_map") and "channel" in kept):
         flags = []  # mode flags / references of a kept channel are consequences of it
     else:
         flags = ["flag-" + x for x in ks if x != "timeline"]
@@ -290,6 +303,74 @@ def slm_scenarios(rng, n):
     return out
 
 
+def mode_scenarios():
+    """enumerated histories of the mode-setting calls (declarations, detuning maps, SLM mask,
+    magnetic field) on a physical (channels used once) and a virtual (reusable) device: every
+    prefix x every next call; when the next call raises, nothing may have changed"""
+    from pulser.devices import DigitalAnalogDevice, MockDevice
+
+    def dm(seq):
+        ids = list(seq._register.qubit_ids)
+        return seq._register.define_detuning_map({ids[0]: 1.0, ids[1]: 0.0})
+
+    calls = {
+        "slm0": lambda s: s.config_slm_mask(list(s._register.qubit_ids)[:1], "dmm_0"),
+        "slm1": lambda s: s.config_slm_mask(list(s._register.qubit_ids)[:1], "dmm_1"),
+        "det0": lambda s: s.config_detuning_map(dm(s), "dmm_0"),
+        "det1": lambda s: s.config_detuning_map(dm(s), "dmm_1"),
+        "ryd": lambda s: s.declare_channel("ryd", "rydberg_global"),
+        "ryd_again": lambda s: s.declare_channel("ryd2", "rydberg_global"),
+        "same_name": lambda s: s.declare_channel("ryd", "raman_local"),
+        "mw": lambda s: s.declare_channel("mw", "mw_global"),
+        "ghost": lambda s: s.declare_channel("x", "no_such_channel"),
+        "mag": lambda s: s.set_magnetic_field(0.0, 0.0, 30.0),
+        "mag0": lambda s: s.set_magnetic_field(0.0, 0.0, 0.0),
+        "pulse": lambda s: s.add(Pulse.ConstantPulse(100, 1.0, 0.0, 0.0), list(s.declared_channels)[0]),
+    }
+    prefixes = [[], ["slm0"], ["det0"], ["ryd"], ["mw"], ["mag"], ["slm0", "ryd"], ["ryd", "slm0"], ["ryd", "pulse"],
+                ["mw", "pulse"], ["slm0", "det1"], ["ryd", "pulse", "slm0"], ["mw", "slm0"]]
+    out = []
+    for dev_name, dev in (("DigitalAnalogDevice", DigitalAnalogDevice), ("MockDevice", MockDevice)):
+        for pre in prefixes:
+            for nxt in calls:
+                out.append((dict(scenario="mode", device=dev_name, prefix=pre, call=nxt), dev, pre, nxt, calls))
+    return out
+
+
+def mode_checks():
+    v = []
+    for desc, dev, pre, nxt, calls in mode_scenarios():
+        with warnings.catch_warnings():
+            warnings.simplefilter("ignore")
+            seq = Sequence(Register.rectangle(1, 3, spacing=8, prefix="q"), dev)
+            try:
+                for c in pre:
+                    calls[c](seq)
+            except Exception:  # noqa: BLE001
+                continue  # this prefix is not a valid history on this device
+
+            def full(s):
+                st = state(s)
+                st["available"] = tuple(sorted(s.available_channels))
+                st["declared"] = tuple(s.declared_channels)
+                return st
+
+            before = full(seq)
+            try:
+                calls[nxt](seq)
+            except Exception as e:  # noqa: BLE001
+                after = full(seq)
+                if after != before:
+                    kind = {"slm0": "config_slm", "slm1": "config_slm", "det0": "config_detmap", "det1": "config_detmap", "mag": "set_mag",
+                            "mag0": "set_mag", "pulse": "add"}.get(nxt, "declare")
+                    ks, detail = what_changed(before, after)
+                    # the channels on offer follow from the mode flags and the declared channels
+                    ks = [x for x in ks if x not in ("available", "declared")] or ks
+                    v.append(Violation(classify(dict(op=kind), e, ks, detail, seq),
+                                       f"{desc['device']}: after {pre}, {nxt} raised {type(e).__name__}({str(e)[:70]!r}) but changed {ks}", desc))
+    return v
+
+
 def _draw(seq):
     import matplotlib.pyplot as plt
 
@@ -320,6 +401,7 @@ def _extra(self, tier, rng):
                 ks = diff_keys(before, now)
                 v.append(Violation(f"read-only-changed-state:{nm}", f"SLM scenario {desc}: changed {ks}", desc))
                 before = now
+    v.extend(mode_checks())
     return v
 
 
@@ -329,6 +411,11 @@ def _replay(self, payload):
         import random
 
         viols = [x for x in _extra(self, "quick", random.Random(20260926)) if x.signature == payload.get("signature")]
+        for x in viols:
+            print("REPRODUCED:", x.signature, "-", x.what)
+        return 1 if viols else 0
+    if isinstance(case, dict) and case.get("scenario") == "mode":
+        viols = [x for x in mode_checks() if x.signature == payload.get("signature") and x.case == case]
         for x in viols:
             print("REPRODUCED:", x.signature, "-", x.what)
         return 1 if viols else 0
